@@ -122,6 +122,48 @@ func (g *gen) typeName(p *pkgInfo, derived func(string) []string) string {
 	}
 }
 
+const kEntity = -1
+
+// typeNameK is typeName, except that a package which mirrors another one
+// (twin) prefers the names its twin uses for types of the same kind.
+func (g *gen) typeNameK(p *pkgInfo, kind int, derived func(string) []string) string {
+	if p.twin == nil || !g.r.chance(75) {
+		return g.typeName(p, derived)
+	}
+	var cands []string
+	free := func(n string) bool {
+		all := []string{n}
+		if derived != nil {
+			all = append(all, derived(n)...)
+		}
+		return p.isFree(all...)
+	}
+	if kind == kEntity {
+		for _, e := range p.twin.ents {
+			if n := camel(e); free(n) {
+				cands = append(cands, n)
+			}
+		}
+	} else {
+		for _, t := range g.types {
+			if t.pkg == p.twin && t.kind == kind && t.owner == t.name && free(t.name) {
+				cands = append(cands, t.name)
+			}
+		}
+	}
+	if len(cands) == 0 {
+		return g.typeName(p, derived)
+	}
+	n := g.r.pick(cands)
+	all := []string{n}
+	if derived != nil {
+		all = append(all, derived(n)...)
+	}
+	p.reserve(all...)
+	g.feat("twin_type_name")
+	return n
+}
+
 func letters(n int) string {
 	s := ""
 	for {
@@ -192,7 +234,16 @@ func (g *gen) distinct(pool []string, n int) []string {
 	return out
 }
 
+// desc returns a one-line description (unusual content under XDescExotic).
 func (g *gen) desc() string {
+	if g.on(XDescExotic) && g.r.chance(40) {
+		g.xfeat(XDescExotic)
+		return g.exoticLine()
+	}
+	return g.plainWords()
+}
+
+func (g *gen) plainWords() string {
 	n := g.r.between(2, 7)
 	parts := make([]string, n)
 	for i := range parts {
@@ -246,16 +297,180 @@ func (g *gen) planPackages() {
 	locals := g.distinct(localPkgPool, nLocal)
 	deps := g.distinct(depPkgPool, nDeps)
 
+	// ---- exotic package plans (every draw below happens only when a shape is on) ----
+	r := g.r
+	type edge struct{ from, to int } // generation indices into locals
+	var edges []edge
+	if g.on(XDeepGraph) && g.cfg.MaxPackages >= 3 {
+		// 4-5 packages in 3-4 levels; imports skip levels:
+		//   4: base <- mid <- side <- top, top -> {base, mid}
+		//   5: the same plus aux: side -> aux (top reaches aux only through side)
+		nLocal = r.between(4, 5)
+		locals = g.distinct(localPkgPool, nLocal)
+		if nLocal == 4 {
+			edges = []edge{{1, 0}, {2, 1}, {3, 0}, {3, 1}, {3, 2}}
+			if r.chance(50) {
+				edges = append(edges, edge{2, 0})
+			}
+		} else {
+			// 0 base, 1 aux, 2 mid, 3 side, 4 top
+			edges = []edge{{2, 0}, {3, 2}, {3, 1}, {4, 0}, {4, 2}, {4, 3}}
+			if r.chance(50) {
+				edges = append(edges, edge{1, 0})
+			}
+		}
+		g.deep = true
+		g.xfeat(XDeepGraph)
+	}
+	if g.on(XEnumRulesXref) && nDeps == 0 && g.cfg.MaxDeps > 0 && r.chance(40) {
+		nDeps = 1
+		deps = g.distinct(depPkgPool, nDeps)
+	}
+	if g.on(XSharedShort) && nLocal == 1 && nDeps < 2 && g.cfg.MaxDeps >= 2 {
+		nDeps = 2
+		deps = g.distinct(depPkgPool, nDeps)
+	}
+	if g.on(XSharedShort) && nLocal == 2 && nDeps == 0 && g.cfg.MaxDeps >= 1 && r.chance(50) {
+		nDeps = 1
+		deps = g.distinct(depPkgPool, nDeps)
+	}
+
+	if g.on(XDepPkgPrefix) && nDeps < 2 && g.cfg.MaxDeps >= 2 {
+		nDeps = 2
+		deps = g.distinct(depPkgPool, nDeps)
+	}
+
+	split := func(name string) (prefix, short, version string) {
+		parts := strings.Split(name, ".")
+		return strings.Join(parts[:len(parts)-2], "."), parts[len(parts)-2], parts[len(parts)-1]
+	}
+	join := func(prefix, short, version string) string {
+		if prefix == "" {
+			return short + "." + version
+		}
+		return prefix + "." + short + "." + version
+	}
+	taken := func(name string) bool {
+		for _, n := range locals {
+			if n == name {
+				return true
+			}
+		}
+		for _, n := range deps {
+			if n == name {
+				return true
+			}
+		}
+		return false
+	}
+
+	// package names that are string prefixes of each other
+	prefA, prefB := -1, -1
+	if g.on(XPkgPrefix) && nLocal >= 2 {
+		prefA, prefB = 0, 1
+		if nLocal >= 4 {
+			prefA = r.intn(2)
+			prefB = prefA + 1
+		}
+		pre, short, ver := split(locals[prefA])
+		var longer string
+		if r.chance(50) {
+			longer = join(pre, short, ver+r.pick([]string{"0", "1", "0", "2"})) // foo.v1 / foo.v10
+			g.feat("pkg_prefix_version")
+		} else {
+			longer = join(pre, short+r.pick([]string{"bay", "plus", "x", "s"}), ver) // foo.bar.v1 / foo.barbay.v1
+			g.feat("pkg_prefix_segment")
+		}
+		if !taken(longer) {
+			if r.chance(50) {
+				locals[prefB] = longer
+			} else {
+				locals[prefB] = locals[prefA]
+				locals[prefA] = longer
+			}
+			g.xfeat(XPkgPrefix)
+		} else {
+			prefA, prefB = -1, -1
+		}
+	}
+
+	// dependency packages extone.v1 + extone.v10 (L22; only when forced)
+	depPrefix := false
+	if g.on(XDepPkgPrefix) && nDeps >= 2 {
+		pre, short, ver := split(deps[0])
+		if longer := join(pre, short, ver+r.pick([]string{"0", "1", "2"})); !taken(longer) {
+			deps[1] = longer
+			depPrefix = true
+		}
+	}
+
+	// two packages sharing the version-less short name, both imported by the
+	// last local package. Candidates: deps and all but the last local.
+	shA, shB := -1, -1 // indices into (deps ++ locals)
+	if g.on(XSharedShort) {
+		nCand := nDeps + nLocal - 1 // in a deep graph top imports base, mid, side (not aux, see below)
+		if nCand >= 2 {
+			// b (the renamed one) must not belong to the prefix pair
+			var bs []int
+			for i := 1; i < nCand; i++ {
+				li := i - nDeps
+				if li >= 0 && (li == prefA || li == prefB) {
+					continue
+				}
+				if g.deep && nLocal == 5 && li == 1 {
+					continue // aux is not imported by top
+				}
+				if depPrefix && i < nDeps {
+					continue
+				}
+				bs = append(bs, i)
+			}
+			if len(bs) > 0 {
+				b := bs[r.intn(len(bs))]
+				var as []int
+				for i := 0; i < b; i++ {
+					if g.deep && nLocal == 5 && i-nDeps == 1 {
+						continue
+					}
+					as = append(as, i)
+				}
+				if len(as) > 0 {
+					a := as[r.intn(len(as))]
+					nameOf := func(i int) *string {
+						if i < nDeps {
+							return &deps[i]
+						}
+						return &locals[i-nDeps]
+					}
+					_, shortA, _ := split(*nameOf(a))
+					preA, _, _ := split(*nameOf(a))
+					_, _, verB := split(*nameOf(b))
+					for _, pre := range g.distinct([]string{"zulu", "omni", "vendor", "corp", "acme", "north"}, 6) {
+						cand := join(pre, shortA, verB)
+						if pre != preA && !taken(cand) {
+							*nameOf(b) = cand
+							shA, shB = a, b
+							break
+						}
+					}
+				}
+			}
+		}
+	}
+
 	mk := func(name string, local bool, order int) *pkgInfo {
 		parts := strings.Split(name, ".")
 		return &pkgInfo{
-			name:  name,
-			dir:   strings.Join(parts, "/"),
-			short: parts[len(parts)-2],
-			alias: "x" + parts[len(parts)-2][:3] + letters(order)[1:],
-			local: local,
-			order: order,
-			names: map[string]bool{},
+			name:     name,
+			dir:      strings.Join(parts, "/"),
+			short:    parts[len(parts)-2],
+			alias:    "x" + parts[len(parts)-2][:3] + letters(order)[1:],
+			local:    local,
+			order:    order,
+			names:    map[string]bool{},
+			allowed:  map[*pkgInfo]bool{},
+			imported: map[*pkgInfo]bool{},
+			avoid:    map[*pkgInfo]bool{},
 		}
 	}
 	for i, d := range deps {
@@ -276,13 +491,79 @@ func (g *gen) planPackages() {
 			}
 		}
 	}
+	if g.deep {
+		for _, p := range g.pkgs {
+			p.restrict = true
+		}
+		for _, e := range edges {
+			g.pkgs[e.from].allowed[g.pkgs[e.to]] = true
+		}
+	}
+	if depPrefix {
+		g.deps[1].twin = g.deps[0]
+		g.xfeat(XDepPkgPrefix)
+	}
+	if prefA >= 0 {
+		g.pkgs[prefB].twin = g.pkgs[prefA]
+		g.prefixA, g.prefixB = g.pkgs[prefA], g.pkgs[prefB]
+		if g.deep && nLocal == 5 && prefA == 0 {
+			g.pkgs[3].allowed[g.pkgs[0]] = true // side imports base and aux
+		}
+	}
+	if shA >= 0 {
+		at := func(i int) *pkgInfo {
+			if i < nDeps {
+				return g.deps[i]
+			}
+			return g.pkgs[i-nDeps]
+		}
+		g.sharedA, g.sharedB = at(shA), at(shB)
+		g.sharedImp = g.pkgs[nLocal-1]
+		if g.sharedB.twin == nil {
+			g.sharedB.twin = g.sharedA
+		}
+		g.xfeat(XSharedShort)
+	}
+	// a package of hand-written protos only / a package that is one entity
+	protoOnly := -1
+	if g.on(XProtoOnlyPkg) && nLocal >= 2 {
+		protoOnly = r.intn(nLocal - 1) // never the last one: somebody may import it
+		g.pkgs[protoOnly].protoOnly = true
+		g.xfeat(XProtoOnlyPkg)
+	}
+	if g.on(XEntityOnlyFile) {
+		k := r.intn(nLocal)
+		if k == protoOnly {
+			k = (k + 1) % nLocal
+		}
+		if k != protoOnly {
+			g.pkgs[k].entityOnly = true
+			g.xfeat(XEntityOnlyFile)
+		}
+	}
+	if g.on(XFileOptions) {
+		// the package whose hand-written protos disagree about go_package
+		var eligible []*pkgInfo
+		for _, p := range g.pkgs {
+			if !p.protoOnly && !p.entityOnly {
+				eligible = append(eligible, p)
+			}
+		}
+		if len(eligible) > 0 {
+			eligible[r.intn(len(eligible))].twoProtos = true
+		}
+	}
 	switch nLocal {
 	case 1:
 		g.feat("packages_1")
 	case 2:
 		g.feat("packages_2")
-	default:
+	case 3:
 		g.feat("packages_3")
+	case 4:
+		g.feat("packages_4")
+	default:
+		g.feat("packages_5")
 	}
 	if nDeps > 0 {
 		g.feat("dep_packages")
